@@ -30,3 +30,5 @@ Ltac cmp_split :=
   end.
 Ltac pbool := cbn [pand por pnot attr olift2 olift1 option_map negb andb orb]; cmp_split;
               cbn [pand por pnot attr olift2 olift1 option_map negb andb orb]; try reflexivity; try (exfalso; lia); try congruence.
+(* tokens of a rendered source location (transformers/transformer.py: str_location) *)
+Inductive ltok := LFile (f : nat) | LNum (n : nat) | LColon | LDash.
